@@ -3,7 +3,6 @@ package main
 // G-ABBREV (C10), G-PAIR, G-EXPECT (C17).
 
 import (
-	"unicode"
 	"fmt"
 	"go/ast"
 	"go/constant"
@@ -11,6 +10,7 @@ import (
 	"go/types"
 	"sort"
 	"strings"
+	"unicode"
 
 	"golang.org/x/tools/go/ssa"
 )
@@ -961,38 +961,44 @@ func (w *World) functionSwitch() *switchInfo {
 }
 
 func (w *World) checkDispatchDefaults(r *Report) {
-	for name, si := range map[string]*switchInfo{"axis": w.axisSwitch(), "function": w.functionSwitch()} {
-		if si == nil {
-			r.bad("ANCHOR", "G-EXPECT:"+name+"-switch", "", name+" dispatch switch not found")
-			continue
+	// a name the builder compares with nothing must end in a non-nil error (or
+	// a panic inside the recover) on every path: followed by constant
+	// propagation with such a name (builder_absint.go)
+	judge := func(kind string, fn *ssa.Function, outs []buildOutcome) {
+		key := kind + "-default"
+		pos := w.pos(fn.Pos())
+		if len(outs) == 0 {
+			r.undec("G-EXPECT", key, pos, "the "+kind+" builder could not be followed with an unknown name")
+			return
 		}
-		key := name + "-default"
-		if si.Default == nil {
-			r.bad("G-EXPECT", key, w.pos(si.Stmt.Pos()), fmt.Sprintf("the %s-name dispatch has no default: an unknown %s name compiles to a nil query", name, name))
-			continue
-		}
-		good := false
-		ast.Inspect(si.Default, func(x ast.Node) bool {
-			rs, ok := x.(*ast.ReturnStmt)
-			if !ok || len(rs.Results) == 0 {
-				return true
+		for _, o := range outs {
+			if o.Accepted || o.NilNil {
+				r.bad("G-EXPECT", key, pos, fmt.Sprintf("an unknown %s name does not end in an error: it compiles (to a nil or wrong query)", kind))
+				return
 			}
-			last := rs.Results[len(rs.Results)-1]
-			if w.astNonNilError(last, si.Default) {
-				good = true
+			if o.Unknown {
+				r.undec("G-EXPECT", key, pos, "a path of the "+kind+" builder with an unknown name could not be followed to its result")
+				return
 			}
-			return true
-		})
-		if good {
-			r.ok("G-EXPECT", key, w.pos(si.Default.Pos()), fmt.Sprintf("unknown %s names return a non-nil error", name))
-		} else {
-			r.bad("G-EXPECT", key, w.pos(si.Default.Pos()), fmt.Sprintf("the default of the %s-name dispatch does not return a non-nil error", name))
 		}
+		r.ok("G-EXPECT", key, pos, fmt.Sprintf("unknown %s names return a non-nil error", kind))
+	}
+	if ab, br, err := w.axisBuildsAI(); err != nil {
+		r.bad("ANCHOR", "G-EXPECT:axis-switch", "", "axis dispatch not found: "+err.Error())
+	} else {
+		judge("axis", br.AxisB, append(append([]buildOutcome{}, ab[unknownAxis]...), ab[unknownAxis+"|noinput"]...))
+	}
+	if fb, br, err := w.functionBuilds(); err != nil {
+		r.bad("ANCHOR", "G-EXPECT:function-switch", "", "function dispatch not found: "+err.Error())
+	} else {
+		var outs []buildOutcome
+		for n := 0; n <= 4; n++ {
+			outs = append(outs, fb[fnBuildKey{unknownFunctionName, n}]...)
+		}
+		judge("function", br.FuncB, outs)
 	}
 }
 
-// astNonNilError: e is a call to errors.New / fmt.Errorf, or an identifier
-// assigned such a call in the same clause.
 func (w *World) astNonNilError(e ast.Expr, scope ast.Node) bool {
 	isCtor := func(x ast.Expr) bool {
 		call, ok := x.(*ast.CallExpr)
